@@ -191,8 +191,27 @@ pub fn help_path(def: &J, text: &str) -> Option<Vec<String>> {
             None => break,
         }
     }
-    // an adjacent subcommand of the level reached: its help lists its own members
+    // an adjacent subcommand of the level reached: its help lists its own members; one without members is
+    // recognised by its name closing the usage path of a text that does not list the level's commands
     if let Some(named) = level.get("named").and_then(J::as_array) {
+        let heads: Vec<&J> = named.iter().filter(|f| s(f, "kind") == "adj" && s(&f["head"], "kind") == "cmd").collect();
+        if !heads.is_empty() && !text.contains("Available commands:") {
+            let mut last: Option<String> = None;
+            for w in line["Usage: ".len()..].split_whitespace().skip(1 + path.len()) {
+                match heads.iter().find(|f| f["head"]["names"][0].as_str() == Some(w)) {
+                    Some(f) => last = Some(f["head"]["names"][0].as_str().unwrap().to_string()),
+                    None => break,
+                }
+            }
+            if let Some(l) = last {
+                let memberless = heads.iter().any(|f| f["head"]["names"][0].as_str() == Some(l.as_str())
+                    && f["members"].as_array().map_or(true, |m| m.is_empty()));
+                if memberless {
+                    path.push(l);
+                    return Some(path);
+                }
+            }
+        }
         for f in named {
             if s(f, "kind") == "adj" && s(&f["head"], "kind") == "cmd" {
                 let lists_member = f["members"].as_array().map_or(false, |ms| {
